@@ -104,6 +104,9 @@ def in_scope(ty):
         S = n.x['spec']
         if S.opt('out_format') not in S.opt('in_format'):
             return True
+        if isinstance(S.post_init, tuple) and S.post_init[0] == 'raise_if_set':
+            # a hook that refuses an explicitly given field refuses the written form (which gives every field) by its own choice
+            return True
         if S.opt('out_format') == 'struct':
             for f in S.fields:
                 if f.name == '_KW_ONLY_' or f.exclude or not f.init:
